@@ -12,6 +12,14 @@ global size_of usize == 8;
 
 //@@ PDFERROR
 
+
+// std semantics of the free functions core::cmp::max / min (TRUSTED, core::cmp docs; `OrdSpec` is vstd's model of `Ord`, defined for the
+// primitive integers). The method forms `a.max(b)` / `a.min(b)` are read natively by this Verus.
+pub assume_specification<T: core::cmp::Ord> [core::cmp::max::<T>] (a: T, b: T) -> (r: T)
+    ensures <T as vstd::std_specs::cmp::OrdSpec>::obeys_cmp_spec() ==> r == (if vstd::std_specs::cmp::OrdSpec::cmp_spec(&a, &b) is Greater { a } else { b });
+pub assume_specification<T: core::cmp::Ord> [core::cmp::min::<T>] (a: T, b: T) -> (r: T)
+    ensures <T as vstd::std_specs::cmp::OrdSpec>::obeys_cmp_spec() ==> r == (if vstd::std_specs::cmp::OrdSpec::cmp_spec(&a, &b) is Greater { b } else { a });
+
 pub type ObjNr = u64;
 pub type GenNr = u64;
 
